@@ -256,6 +256,46 @@ func (p c03) Run(w *mon.Worker, idx int) mon.Result {
 		if hasRoot(ts) {
 			return skip("selection contains the root")
 		}
+		if (idx/9)%5 == 3 && doc.K == ref.Map && len(doc.M) >= 2 {
+			// the list of entries of a map is a list like any other: deleting entries of it removes exactly those
+			keysOK := true
+			for _, kv := range doc.M {
+				keysOK = keysOK && identOK(kv.K)
+			}
+			if keysOK {
+				n := len(doc.M)
+				i, j := r.IntN(n), r.IntN(n)
+				type form struct {
+					expr string
+					gone map[int]bool
+				}
+				f := []form{
+					{fmt.Sprintf("to_entries | del(.[%d]) | from_entries", i), map[int]bool{i: true}},
+					{fmt.Sprintf("to_entries | del(.[%d], .[%d]) | from_entries", i, j), map[int]bool{i: true, j: true}},
+					{fmt.Sprintf("to_entries | del(.[] | select(.key == %q)) | from_entries", doc.M[i].K), map[int]bool{i: true}},
+					{fmt.Sprintf("with_entries(.) | to_entries | del(.[-1]) | from_entries"), map[int]bool{n - 1: true}},
+				}[r.IntN(4)]
+				want := &ref.V{K: ref.Map, M: []ref.KV{}}
+				for x, kv := range doc.M {
+					if !f.gone[x] {
+						want.M = append(want.M, kv)
+					}
+				}
+				cs["expr"] = f.expr
+				res.Tags = append(res.Tags, "entries_list")
+				res.Sig = fmt.Sprintf("entries|%s|%x", f.expr, doc.ShapeHash())
+				got, _, yerr := evalDoc(f.expr, doc)
+				res.Evals++
+				if yerr != nil {
+					return fail("`%s` failed: %v", f.expr, yerr)
+				}
+				if got == nil || !ref.EqualNum(got, want) {
+					return fail("`%s`\n input    %s\n expected %s\n observed %s", f.expr, doc, want, got)
+				}
+				res.Verdict, res.Nontrivial, res.Detail = mon.Held, true, "entries removed from the list of entries"
+				return res
+			}
+		}
 		if (idx/9)%5 == 2 {
 			// the document comes out of a file read with load(): every load of the file is a document of its own, a
 			// delete in one of them removes nothing from the next one
